@@ -235,7 +235,11 @@ def drive(mod, tier: str, seed: int) -> int:
         if len(samples) < 6:
             samples.extend(res.get("samples", [])[: 6 - len(samples)])
         for k, v in res.get("extra", {}).items():
-            if isinstance(v, (int, float)):
+            if isinstance(v, (int, float)) and k.startswith("max_"):
+                extra[k] = max(extra.get(k, v), v)
+            elif isinstance(v, (int, float)) and k.startswith("min_"):
+                extra[k] = min(extra.get(k, v), v)
+            elif isinstance(v, (int, float)):
                 extra[k] = extra.get(k, 0) + v
             elif isinstance(v, list):
                 extra.setdefault(k, [])
